@@ -107,27 +107,45 @@ theorem ge_two (h : Mid m0 m x pend) (hw : WF m0.tbl) {k : Nat} {n : Nd} (hk : m
   | none => exact (h.rel.fresh k n hn hk).1
   | some n0 => exact hw.ge_two _ _ hn
 
-/-- changing reference counters (same key set) keeps the phase invariant -/
-theorem setRef (h : Mid m0 m x pend) (r : TreeMap Nat Nat) (hr : ∀ k, r.contains k = m.ref.contains k) :
-    Mid m0 { m with ref := r } x pend :=
-  ⟨h.rel, h.pendOK, h.pred, h.freeGe, h.free, by rw [hr]; exact h.refOne,
-   fun u n hn => by rw [hr]; exact h.refDom u n hn,
-   ⟨h.frame.vars, h.frame.l2v, h.frame.lastLen, h.frame.ctx, h.frame.sched, h.frame.roots⟩⟩
-
 end Mid
 
 /-! ### counters -/
 
+/-- only the counters changed, and their key set did not -/
+structure RefOnly (m m' : Mgr) : Prop where
+  tbl : m'.tbl = m.tbl
+  pred : m'.pred = m.pred
+  minFree : m'.minFree = m.minFree
+  cache : m'.cache = m.cache
+  lastLen : m'.lastLen = m.lastLen
+  ctx : m'.ctx = m.ctx
+  fireIn : m'.fireIn = m.fireIn
+  sched : m'.sched = m.sched
+  roots : m'.roots = m.roots
+  keys : ∀ k, m'.ref.contains k = m.ref.contains k
+
+theorem Mid.refOnly {m0 m m' : Mgr} {x : Nat} {pend : Nat → Prop} (h : Mid m0 m x pend)
+    (hr : RefOnly m m') : Mid m0 m' x pend := by
+  refine ⟨by rw [hr.tbl]; exact h.rel, h.pendOK, ?_, by rw [hr.minFree]; exact h.freeGe,
+    by rw [hr.minFree, hr.tbl]; exact h.free, by rw [hr.keys]; exact h.refOne, ?_,
+    ⟨by rw [hr.tbl]; exact h.frame.vars, by rw [hr.tbl]; exact h.frame.l2v,
+     hr.lastLen.trans h.frame.lastLen, hr.ctx.trans h.frame.ctx, hr.sched.trans h.frame.sched,
+     hr.roots.trans h.frame.roots⟩⟩
+  · intro n u; rw [hr.pred, hr.tbl]; exact h.pred n u
+  · intro u n hn; rw [hr.keys]; rw [hr.tbl] at hn; exact h.refDom u n hn
+
 theorem decref_frame (m : Mgr) (u : Int) (h : m.ref.contains u.natAbs = true) :
-    ∃ r, decref u m = (.ok (), { m with ref := r }) ∧ ∀ k, r.contains k = m.ref.contains k := by
+    ∃ m', decref u m = (.ok (), m') ∧ RefOnly m m' := by
   rw [TreeMap.contains_eq_isSome_getElem?] at h
   obtain ⟨c, hc⟩ := Option.isSome_iff_exists.mp h
   unfold decref
   rw [hc]
   by_cases h0 : c = 0
-  · exact ⟨m.ref, by simp [h0], fun _ => rfl⟩
-  · refine ⟨m.ref.insert u.natAbs (c - 1), by simp [h0], ?_⟩
+  · exact ⟨m, by simp [h0], ⟨rfl, rfl, rfl, rfl, rfl, rfl, rfl, rfl, rfl, fun _ => rfl⟩⟩
+  · refine ⟨{ m with ref := m.ref.insert u.natAbs (c - 1) }, by simp [h0],
+      ⟨rfl, rfl, rfl, rfl, rfl, rfl, rfl, rfl, rfl, ?_⟩⟩
     intro k
+    show (m.ref.insert u.natAbs (c - 1)).contains k = m.ref.contains k
     rw [TreeMap.contains_insert]
     by_cases hk : u.natAbs = k
     · subst hk
@@ -135,13 +153,15 @@ theorem decref_frame (m : Mgr) (u : Int) (h : m.ref.contains u.natAbs = true) :
     · simp [hk]
 
 theorem incref_frame (m : Mgr) (u : Int) (h : m.ref.contains u.natAbs = true) :
-    ∃ r, incref u m = (.ok (), { m with ref := r }) ∧ ∀ k, r.contains k = m.ref.contains k := by
+    ∃ m', incref u m = (.ok (), m') ∧ RefOnly m m' := by
   rw [TreeMap.contains_eq_isSome_getElem?] at h
   obtain ⟨c, hc⟩ := Option.isSome_iff_exists.mp h
   unfold incref
   rw [hc]
-  refine ⟨m.ref.insert u.natAbs (c + 1), rfl, ?_⟩
+  refine ⟨{ m with ref := m.ref.insert u.natAbs (c + 1) }, rfl,
+    ⟨rfl, rfl, rfl, rfl, rfl, rfl, rfl, rfl, rfl, ?_⟩⟩
   intro k
+  show (m.ref.insert u.natAbs (c + 1)).contains k = m.ref.contains k
   rw [TreeMap.contains_insert]
   by_cases hk : u.natAbs = k
   · subst hk
